@@ -214,6 +214,12 @@ pub fn decide(ev_le: &[u8; 64], stake: u64, total: u64, phi: f64, band_log2: i32
     let Some(p) = probability(stake, total, phi, ln2c) else {
         return Verdict::TooClose;
     };
+    decide_p(ev_le, &p, band_log2)
+}
+
+/// [`decide`] for an already computed probability bracket `p` (from [`probability`]): lets a
+/// caller that tests many draws against the same (stake, total, phi) compute `p` once.
+pub fn decide_p(ev_le: &[u8; 64], p: &Iv, band_log2: i32) -> Verdict {
     let ev = BigInt::from_bytes_le(Sign::Plus, ev_le) << (P - 512);
     let band = BigInt::one() << ((P as i32 + band_log2) as u32);
     if ev < &p.lo - &band {
